@@ -99,3 +99,36 @@ def removed_set_bases(repo, run, rule):
         run.violation(rule, tr.where(fn, bad[0]), bad[0].callee[:100], bad[1])
     else:
         run.ok(rule, fn, 'filter_nodes: removed.add(prefix + [name]); recursion with prefix + [name] and the same set', 'recursion extends the prefix and shares the removed set')
+
+
+PATH_APIS = {'get_node', 'remove_node', 'get_first_not_missing_node', 'get_list_path', '_get_node', '_remove_node', 'replace_node'}
+
+
+def no_unpacked_list_paths(repo, run, rule):
+    """the path-taking APIs accept either one path object or its components as varargs; `api(*p)` with p a *list path* hands the
+    components over one by one, and NodePath.get_list_path re-parses a single str component as dotted path text - the lookup then
+    depends on the depth of the node and on the spelling of its key.  Only forwarding of the caller's own *varargs is accepted."""
+    n = 0
+    for fi in repo.all_functions(include_nested=True):
+        va = fi.node.args.vararg.arg if getattr(fi.node, 'args', None) is not None and fi.node.args.vararg is not None else None
+        outer_va = set()
+        o = fi.outer
+        while o is not None:
+            if o.node.args.vararg is not None:
+                outer_va.add(o.node.args.vararg.arg)
+            o = o.outer
+        for c in calls_in(fi.node, nested=False):
+            name = c.func.attr if isinstance(c.func, ast.Attribute) else (c.func.id if isinstance(c.func, ast.Name) else None)
+            if name not in PATH_APIS:
+                continue
+            for a in c.args:
+                if not isinstance(a, ast.Starred):
+                    continue
+                n += 1
+                src = norm(a.value)
+                if isinstance(a.value, ast.Name) and (a.value.id == va or a.value.id in outer_va):
+                    run.ok(rule, (fi.file, c.lineno, fi.qualname), unparse(c)[:90], 'forwards the caller\'s own varargs')
+                else:
+                    run.violation(rule, fi, unparse(c)[:120], 'the list path %s is unpacked into the varargs of %s: a path of exactly one component is re-parsed as dotted path text (keys containing `.`, `[`, `-`, spaces ... address another node or fail), longer paths are not - the result depends on nesting depth and key spelling' % (src[:40], name), node=c)
+    if n < 3:
+        raise AnalysisError('%s: only %d star-forwarded path calls found' % (rule, n))
